@@ -52,17 +52,17 @@ func bytesProbes() []vk.Probe {
 			if m := checkMsgReceiver([][]byte{append(append([]byte{}, neg...), 'x')}, "read", 64, false); m != "" {
 				return true, m
 			}
-			// an 8-byte chunk announcing 1 GiB: ReadFully allocates it before any payload arrives
-			if m := checkMsgReceiver([][]byte{{0, 0, 0, 0, 0x40, 0, 0, 0}}, "readfully", 64, false); m != "" {
+			// an 8-byte chunk announcing 256 MiB: ReadFully allocates it before any payload arrives
+			if m := checkMsgReceiver([][]byte{{0, 0, 0, 0, 0x10, 0, 0, 0}}, "readfully", 64, false); m != "" {
 				return true, m
 			}
 			return false, ""
 		}},
 		{ID: kfF16, Present: func() (bool, string) {
 			for _, in := range [][]byte{
-				{0, 0, 0, 0},                // count field of length 0: Uint32 on an empty slice
-				{0, 0, 0, 2, 0, 1},          // count field of length 2
-				{0xFF, 0xFF, 0xFF, 0xFF, 1}, // count field announcing 4 GiB - 1
+				{0, 0, 0, 0},       // count field of length 0: Uint32 on an empty slice
+				{0, 0, 0, 2, 0, 1}, // count field of length 2
+				{0x10, 0, 0, 0, 1}, // count field announcing 256 MiB
 			} {
 				if m := checkAppMetadata(in, false); m != "" {
 					return true, m
